@@ -113,6 +113,27 @@ pub fn level_base_for(cfg: &Cfg) -> u64 {
     }
 }
 
+/// Divisor of the tenfold level-to-level growth of the size limits (second guarded hook): half of the
+/// cases with the smallest base use 5 (limits double from level to level: 300 B, 600 B, ... 9.6 kB at
+/// level 6), so that the deepest level is reached with some ten kilobytes of data.
+pub fn level_growth_divisor_for(cfg: &Cfg) -> u64 {
+    if level_base_for(cfg) == 30 && (cfg.file / 100 + cfg.memtable as u64 / 100) % 2 == 0 {
+        5
+    } else {
+        1
+    }
+}
+
+/// Base and growth divisor packed into one number (recorded in crash replays).
+pub fn level_code_for(cfg: &Cfg) -> u64 {
+    level_base_for(cfg) | (level_growth_divisor_for(cfg) << 32)
+}
+
+pub fn set_level_limits(code: u64) {
+    raindb::verif::set_level_base_bytes(code & 0xffff_ffff);
+    raindb::verif::set_level_growth_divisor((code >> 32).max(1));
+}
+
 /// Bloom bits per key of a configuration (1, 10 or 24): re-drawn with the configuration at every
 /// reopen, so tables written under one setting are read by a policy instance with another.
 pub fn bloom_bits(cfg: &Cfg) -> usize {
@@ -169,7 +190,7 @@ type R<T> = Result<T, Failure>;
 
 impl<'a> Interp<'a> {
     pub fn new(case: &'a Case, o: Oracles) -> Self {
-        raindb::verif::set_level_base_bytes(level_base_for(&case.cfg));
+        set_level_limits(level_code_for(&case.cfg));
         Interp {
             case,
             fs: Arc::new(MemFs::new(false)),
@@ -1087,6 +1108,9 @@ impl<'a> Interp<'a> {
         }
         if levels.iter().any(|l| *l >= 5) {
             self.stats.bump("has_file_at_level_ge_5");
+        }
+        if levels.iter().any(|l| *l >= 6) {
+            self.stats.bump("has_file_at_the_last_level_6");
         }
         if (1..7).any(|l| layout.iter().filter(|f| f.level == l).count() >= 4) {
             self.stats.bump("four_or_more_files_in_a_level_ge_1");
